@@ -43,6 +43,8 @@ fn op_name(op: &TmOp) -> &'static str {
         TmOp::Unsubscribe(_) => "unsubscribe",
         TmOp::InsertLocal { .. } => "insert-local",
         TmOp::RemoveLocal { .. } => "remove-local",
+        TmOp::MarkLlgrStale { .. } => "mark-llgr-stale",
+        TmOp::DropLlgrStale { .. } => "drop-llgr-stale",
     }
 }
 
@@ -172,6 +174,8 @@ pub fn run(r: &Run) {
     r.assume("a lost peer's routes leave the RIB without per-route withdraw events; the subscriber removes them on the PeerDown event the daemon emits right after (RFC 7854 §4.9); graceful-restart retention (stale routes of a peer that is down) is out of this check's scope");
     r.prop("subscribe-histories", r.tier.pick(150_000, 4_000_000), || arb_case(r.tier.pick(14, 24)), check);
     r.prop("peer-pairing", r.tier.pick(20_000, 300_000), || proptest::collection::vec((0u8..N_PEERS, any::<bool>()), 0..16).prop_map(|events| PairCase { events }), check_pairing);
+    r.assume("snapshot-fold: the BMP client folds every Adj-RIB-In event that arrives before the end-of-snapshot marker into its per-peer snapshot map (bmp.rs apply_snapshot) and writes the map out when the marker comes (flush_peer_snapshot); cases = 1..600 generated announce/withdraw changes of several peers, families, path ids and NLRI counts (the generator of C19 `converters`), applied in order; expected: the flushed records of the chosen peer hold, per (family, prefix, path id), exactly the last announced state, and nothing for keys whose last event was a withdrawal. non-trivial := the flushed peer holds two or more routes, or the case contains a withdrawal");
+    r.prop("snapshot-fold", r.tier.pick(6_000, 200_000), || super::c19::arb_conv(r.tier.pick(600, 2500)), super::c19::check_conv);
     r.assume(super::c18e::RULE);
     r.slow(|| r.prop("bmp-station", r.tier.pick(2_500, 80_000), || super::c18e::arb_case(r.tier.pick(16, 28)), super::c18e::check));
 }
@@ -180,6 +184,7 @@ pub fn replay(sub: &str, case: &Value) -> Result<CheckResult, String> {
     match sub {
         "peer-pairing" => Ok(check_pairing(&decode_case(case)?)),
         "bmp-station" => super::c18e::replay(case),
+        "snapshot-fold" => super::c19::replay("converters", case),
         _ => Ok(check(&decode_case(case)?)),
     }
 }
